@@ -290,6 +290,17 @@ pub const MAX_MSG_ABSOLUTE: usize = 8972;
 
 const MSG_HEADER_LEN: usize = 12;
 
+/// Max length of one label of a DNS name, in bytes.
+const MAX_LABEL_LEN: usize = 63;
+
+/// Returns false if `name` (in the escaped form accepted by the encoder) has
+/// a label that is longer than a DNS label can be.
+pub(crate) fn name_labels_fit(name: &str) -> bool {
+    DnsOutPacket::parse_escaped_name(name)
+        .iter()
+        .all(|label| label.len() <= MAX_LABEL_LEN)
+}
+
 // Definitions for DNS message header "flags" field
 //
 // The "flags" field is 16-bit long, in this format:
@@ -1639,7 +1650,15 @@ impl DnsOutPacket {
     }
 
     fn write_utf8(&mut self, s: &str) {
-        assert!(s.len() < 64);
+        // A label cannot be longer than 63 bytes. Names given by the user are
+        // validated before they get here; a name built from received data can
+        // still be too long (e.g. when its labels were joined by a backslash),
+        // and that must not take the daemon down: such a label is cut.
+        let mut end = s.len().min(MAX_LABEL_LEN);
+        while !s.is_char_boundary(end) {
+            end -= 1;
+        }
+        let s = &s[..end];
         self.write_byte(s.len() as u8);
         self.write_bytes(s.as_bytes());
     }
